@@ -115,15 +115,33 @@ def run_conditions(rng, obs):
     obs.notes = {'lines_satisfied': sat_flags}
 
 
+def line_term(ptype_family, kind, w, K):
+    """documented per-line penalty term (iteration 0) for the penalty families that vanish on the feasible set"""
+    if ptype_family == 'quadratic': return float(2 * K) * max(0.0, w) ** 2 if kind == 'ineq' else float(K) * w ** 2
+    if ptype_family == 'linear': return float(2 * K) * max(0.0, w) if kind == 'ineq' else float(K) * abs(w)
+    if ptype_family == 'uniform': return (float(K) if w > 0 else 0.0) if kind == 'ineq' else (float(K) if w != 0 else 0.0)
+    raise KeyError(ptype_family)
+
+
 def run_penalty(rng, obs):
     import mystic.penalty as mp
     from mystic.symbolic import generate_conditions, generate_penalty
     n = rng.choice([1, 2, 3, 5, 9])
     variables, names = gen_names(rng, n)
-    text, specs = gen_text(rng, n, names)
+    isolated = rng.random() < 0.5
+    text, specs = gen_text(rng, n, names, isolated=isolated, nlines=rng.randint(1, min(4, n)) if isolated else None)
     x = gen_x(rng, n)
+    on_boundary = False
+    if isolated:
+        # put some of the isolated variables exactly on their boundary (x_i == f): the line is then exactly active
+        try:
+            for (lhs, cmp, rhs) in specs:
+                if rng.random() < 0.6:
+                    x[names.index(lhs)] = T.value(rhs, T.env_of(names, x)); on_boundary = True
+        except (ZeroDivisionError, OverflowError, ValueError):
+            pass
     k = rng.choice([None, 1, 20, 100, 1000]); h = rng.choice([None, 2, 5])
-    ptype = rng.choice([None, None, 'quadratic', 'linear'])
+    ptype = rng.choice([None, None, 'quadratic', 'linear', 'uniform', 'uniform'])
     obs.desc = {'text': text, 'variables': variables if isinstance(variables, str) else names, 'n': n, 'x': x, 'k': k, 'h': h, 'ptype': ptype}
     try:
         vals = evaluate(specs, names, x)
@@ -136,38 +154,38 @@ def run_penalty(rng, obs):
     pt = None
     if ptype is not None:
         pt = [[getattr(mp, ptype + '_inequality')] * len(conds[0]), [getattr(mp, ptype + '_equality')] * len(conds[1])]
-        pt = [p for p in pt]
     try:
         pen = generate_penalty(conds, pt, **kw) if pt is not None else generate_penalty(conds, **kw)
     except Exception as e:
         obs.violation('pen:generate_penalty failed', text=text, error=repr(e)[:200]); return
     got = float(pen(list(x)))
-    K = 100 if k is None else k
-    total, anyviol, allsat = 0.0, False, True
+    fam = ptype or 'quadratic'
+    K = ({'quadratic': 100, 'linear': 100, 'uniform': float('inf')}[fam]) if k is None else k
+    total, anyviol, allsat, flags, active = 0.0, False, True, [], False
     for (l, c, r) in vals:
         kind, w = expected_condition(l, c, r)
-        quad = ptype in (None, 'quadratic')
-        if kind == 'ineq': term = float(2 * K) * (max(0.0, w) ** 2 if quad else max(0.0, w))
-        else: term = float(K) * (w ** 2 if quad else abs(w))
-        total += term
+        total += line_term(fam, kind, w, K)
         viol = (w > 0) if kind == 'ineq' else (w != 0)
+        flags.append(viol)
+        if w == 0: active = True
         anyviol |= viol; allsat &= not viol
-    obs.check(close(got, total, 1e-9) or abs(got - total) <= 1e-9 * (1 + abs(total)), 'pen:penalty equals the documented sum of per-line terms', text=text, x=x, k=K, ptype=ptype, observed=got, expected=total)
+    same = (got == total) if not math.isfinite(total) else (close(got, total, 1e-9) or abs(got - total) <= 1e-9 * (1 + abs(total)))
+    obs.check(same, 'pen:penalty equals the documented sum of per-line terms', text=text, x=x, k=K, ptype=ptype, observed=got, expected=total,
+              some_line_exactly_active=active)
     if allsat:
-        obs.check(got == 0.0, 'pen:penalty is zero where every line holds', text=text, x=x, observed=got)
+        obs.check(got == 0.0, 'pen:penalty is zero where every line holds', text=text, x=x, observed=got, ptype=ptype, some_line_exactly_active=active)
     elif total > 1e-200:
-        obs.check(got > 0.0, 'pen:penalty is positive where some line is violated', text=text, x=x, observed=got, expected=total)
+        obs.check(got > 0.0, 'pen:penalty is positive where some line is violated', text=text, x=x, observed=got, expected=total, ptype=ptype)
     # iteration state: h^n growth
     if hasattr(pen, 'iter') and total > 0 and math.isfinite(total):
         pen.iter()
         H = 5 if h is None else h
         got2 = float(pen(list(x)))
-        obs.check(close(got2, total * H, 1e-9), 'pen:after iter() every term grows by the factor h', text=text, observed=got2, expected=total * H, h=H)
+        obs.check(close(got2, total * H, 1e-9), 'pen:after iter() every term grows by the factor h', text=text, observed=got2, expected=total * H, h=H, ptype=ptype)
         pen.clear()
         obs.check(close(float(pen(list(x))), total, 1e-9), 'pen:clear() resets the growth', text=text)
-    flags = [((w > 0) if kind == 'ineq' else (w != 0)) for kind, w in (expected_condition(l, c, r) for l, c, r in vals)]
-    obs.nontrivial = (True in flags and False in flags) or any(l == r for l, c, r in vals)
-    obs.notes = {'penalty': got, 'violated_lines': flags}
+    obs.nontrivial = (True in flags and False in flags) or active
+    obs.notes = {'penalty': got, 'violated_lines': flags, 'on_boundary': on_boundary}
 
 
 def run_cross(rng, obs):
